@@ -18,12 +18,14 @@ CONSTANT MaxFaults
 
 Seeds == {"python", "typescript", "javascript", "rust", "script"}   \* script: extensionless, python shebang
 \* cutDirective: a suppression comment cut before its closing bracket (`thailint: ignore[rule-a,rule-b` ...)
+\* formatLiterals: valid code comparing a variable with the strings "{", "}", "{0}", "%s" (they reach the messages of
+\* cross-file findings)
 \* hugeHex: one integer literal of 5000 hexadecimal digits (beyond CPython's int -> str digit limit)
 \* truncInParen: cut inside a construct that is open across lines (multi-line import, parameter list, use-group)
 Ops == {"truncTiny", "truncQuarter", "truncHalf", "truncMost", "truncInParen", "quoteFlood", "deleteToken", "dupToken", "dupLine",
         "openParen", "closeParen", "openBrace", "closeBracket", "openQuote", "openTriple",
         "bom", "crlf", "mixedEol", "latin1", "invalidUtf8", "nulBytes", "controlChars",
-        "nestParens", "nestBlocks", "longLine", "longExpr", "manyLines", "hugeHex", "cutDirective",
+        "nestParens", "nestBlocks", "longLine", "longExpr", "manyLines", "hugeHex", "cutDirective", "formatLiterals",
         "empty", "whitespaceOnly", "unknownExt", "binary", "onlyComment", "tabsAndSpaces"}
 \* operations that replace the whole content make earlier operations irrelevant
 Replacing == {"empty", "whitespaceOnly", "binary", "onlyComment"}
